@@ -100,9 +100,17 @@ def check_partitions(rep, prog):
     # ---- partitions_and_probabilities ------------------------------------------------------------------------------------
     fn = prog.func(LP, 'partitions_and_probabilities')
     rep.saw_function(m.rel + ':' + fn.name)
-    ways = [n for n in own_nodes(fn) if isinstance(n, ast.Assign) and ast.unparse(n.targets[0]) == 'partition_ways']
-    welt = "numpy.exp(dadi.Numerics.multinomln([part.count(0), part.count(1), part.count(2)])) * 2 ** part.count(1)"
-    okw = len(ways) == 2 and all(welt in ast.unparse(w.value) for w in ways)
+    # the weight of one partition, written with any name for the partition: found in the Fx == 0 arm of both partition types
+    def weight_elts(node):
+        out = []
+        for c in ast.walk(node):
+            if isinstance(c, (ast.ListComp, ast.GeneratorExp)) and len(c.generators) == 1 and isinstance(c.generators[0].target, ast.Name):
+                v = c.generators[0].target.id
+                if ast.unparse(c.elt) == "numpy.exp(dadi.Numerics.multinomln([{0}.count(0), {0}.count(1), {0}.count(2)])) * 2 ** {0}.count(1)".format(v):
+                    out.append(c)
+        return out
+    f0 = [n for n in own_nodes(fn) if isinstance(n, ast.If) and ast.unparse(n.test) in ('Fx == 0', '0 == Fx', 'not Fx')]
+    okw = len(f0) == 2 and all(any(weight_elts(x) for x in n.body) for n in f0)
     rep.ob('R-TWIN', 'partitions_and_probabilities weights', okw, 'both arms weight a partition by multinomial(n0,n1,n2) * 2^n1', m.rel, fn.lineno,
            what='number of genotype assignments times the two phases of each heterozygote, identically in both partition types')
     probs = [n for n in own_nodes(fn) if isinstance(n, ast.Assign) and ast.unparse(n.targets[0]) == 'partition_probabilities']
@@ -111,6 +119,17 @@ def check_partitions(rep, prog):
     t = ast.unparse(fn)
     okg = has(t, 'partition_ways_sum = [[numpy.sum(part)] if len(part) > 1 else part for part in partition_ways]') and \
         has(t, 'partition_probabilities = [numpy.array(pw) / numpy.array(pwb) for (pw, pwb) in zip(partition_ways, partition_ways_sum)]')
+    if not okg:
+        # the other way of writing it: one comprehension over the allele counts whose element is  W / sum(W)  with W the weights of that count
+        for n in probs:
+            v = n.value
+            if isinstance(v, ast.ListComp) and len(v.generators) == 1 and not v.generators[0].ifs and ast.unparse(v.generators[0].iter) == 'partitions' \
+                    and isinstance(v.elt, ast.BinOp) and isinstance(v.elt.op, ast.Div) and weight_elts(v.elt.left):
+                num, d = ast.unparse(v.elt.left), v.elt.right
+                if isinstance(d, ast.Call) and (((dotted(d.func) or '') in ('sum', 'numpy.sum', 'np.sum') and len(d.args) == 1 and not d.keywords and ast.unparse(d.args[0]) == num) or
+                                                (isinstance(d.func, ast.Attribute) and d.func.attr == 'sum' and not d.args and not d.keywords and ast.unparse(d.func.value) == num)):
+                    wl = weight_elts(v.elt.left)[0]
+                    okg = ast.unparse(wl.generators[0].iter) == ast.unparse(v.generators[0].target)
     rep.ob('R-NORM', 'partitions_and_probabilities genotype', okg, 'each list of weights is divided by its own sum (or by itself when it has one element)', m.rel, fn.lineno,
            what='genotype arm: per allele count, weights divided by their sum')
     okc = has(t, "partitions = dadi.Numerics.cached_part(allele_frequency, n_sequenced / 2)") and \
@@ -118,8 +137,14 @@ def check_partitions(rep, prog):
     rep.ob('R-IDX', 'partitions_and_probabilities enumeration', okc, 'partitions of the allele count over n_sequenced/2 diploid individuals; genotype arm covers counts 0..n_sequenced', m.rel, fn.lineno,
            what='all allele counts 0..n, n/2 individuals with 0/1/2 copies')
     inb = [n for n in probs if 'part_inbreeding_probability' in ast.unparse(n.value)]
-    oki = sorted(ast.unparse(n.value) for n in inb) == ['[part_inbreeding_probability(part, Fx) for part in partitions]', 'part_inbreeding_probability(partitions, Fx)'] and \
-        t.count('if Fx == 0:') == 2 and len(probs) == 4
+    def inb_form(v):
+        if ast.unparse(v) == 'part_inbreeding_probability(partitions, Fx)':
+            return 'whole'
+        if isinstance(v, ast.ListComp) and len(v.generators) == 1 and not v.generators[0].ifs and isinstance(v.generators[0].target, ast.Name) and ast.unparse(v.generators[0].iter) == 'partitions' \
+                and ast.unparse(v.elt) == 'part_inbreeding_probability(%s, Fx)' % v.generators[0].target.id:
+            return 'each'
+        return '?'
+    oki = sorted(inb_form(n.value) for n in inb) == ['each', 'whole'] and len(f0) == 2 and len(probs) == 4 and all(any(x is n or any(y is n for y in ast.walk(x)) for f_ in f0 for x in f_.orelse) for n in inb)
     rep.ob('R-EXH', 'partitions_and_probabilities F dispatch', oki, 'Fx == 0 -> multinomial weights, otherwise beta-binomial weights, in both partition types', m.rel, fn.lineno,
            what='every (partition type, F) combination assigns the probabilities')
     # ---- Numerics.part -------------------------------------------------------------------------------------------------------
@@ -130,9 +155,14 @@ def check_partitions(rep, prog):
     rep.ob('R-TPL', 'Numerics.part recursion', okp, 'non-decreasing entries (next minimum = current value), remaining sum x - val over n - 1 entries, pruned by n*min <= x <= n*max', prog.mod(NUM).rel, pf.lineno,
            what='every multiset of n values in [min,max] with sum x is produced exactly once')
     cp = prog.func(NUM, 'cached_part')
-    tc = ast.unparse(cp)
-    okc = has(tc, 'if (x, n, minval, maxval) not in _part_cache:') and has(tc, '_part_cache[x, n, minval, maxval] = list(part(x, n, minval, maxval))') and has(tc, 'return _part_cache[x, n, minval, maxval]')
-    rep.ob('R-KEY', 'Numerics.cached_part', okc, 'cache keyed on all four arguments', prog.mod(NUM).rel, cp.lineno, what='the key determines the cached partitions')
+    # memo-key dataflow (every input of the cached value is in the key, as a whole object; lookup and store use the same key)
+    from rules import c20
+    c20.rule_key_full(rep, prog, NUM, 'cached_part', '_part_cache')
+    stores = [n for n in own_nodes(cp) if isinstance(n, ast.Assign) and isinstance(n.targets[0], ast.Subscript) and ast.unparse(n.targets[0].value) == '_part_cache']
+    from sa.extract import single_assignments, inline
+    sing = single_assignments(cp)
+    okc = len(stores) == 1 and ast.unparse(inline(stores[0].value, sing)) == 'list(part(x, n, minval, maxval))'
+    rep.ob('R-KEY', 'Numerics.cached_part', okc, 'the cached value is list(part(x, n, minval, maxval))', prog.mod(NUM).rel, cp.lineno, what='the cache holds the partitions of its own arguments')
 
 
 def check_projection(rep, prog):
